@@ -783,7 +783,9 @@ func (e *SpecEnv) evalCall(x *SCall) Val {
 				e.fail("returned(%s): no call of %s precedes this point", id.Name, id.Name)
 			}
 			if cb := c.lastCallBlock[id.Name]; cb != nil && e.block != nil && cb != e.block && !cb.Dominates(e.block) {
-				e.fail("returned(%s): the call does not dominate this point", id.Name)
+				// the call may not have happened on the path to this point: the clause has to be guarded by a
+				// condition that implies it did (the value is the call's result symbol either way)
+				c.note("returned(%s) is used at a point the call does not dominate: meaningful only under a guard that implies the call happened", id.Name)
 			}
 			return v
 		case "effects":
